@@ -202,6 +202,9 @@ pub fn main(subjects: Vec<Box<dyn DynSubject>>, lay: (Layouts, BTreeMap<String, 
     let out = arg(&args, "--out").expect("--out");
     let threads: usize = arg(&args, "--threads").and_then(|s| s.parse().ok()).unwrap_or(8);
     let only: Option<usize> = arg(&args, "--only").and_then(|s| s.parse().ok());
+    let from: usize = arg(&args, "--from").and_then(|s| s.parse().ok()).unwrap_or(0);
+    let to: usize = arg(&args, "--to").and_then(|s| s.parse().ok()).unwrap_or(usize::MAX);
+    let skip: Vec<usize> = arg(&args, "--skip").map(|s| s.split(',').filter_map(|x| x.parse().ok()).collect()).unwrap_or_default();
     let cases_override: Option<u32> = arg(&args, "--cases").and_then(|s| s.parse().ok());
     let tmp = std::path::PathBuf::from(arg(&args, "--tmp").unwrap_or_else(|| "/verif/work/tmp".into()));
     let replay: Option<Value> = arg(&args, "--replay").map(|p| serde_json::from_str(&std::fs::read_to_string(p).expect("replay file")).expect("replay json"));
@@ -268,7 +271,7 @@ pub fn main(subjects: Vec<Box<dyn DynSubject>>, lay: (Layouts, BTreeMap<String, 
     }
     let check: CheckFn = if prop == "C16" { |_, _, _, _| {} } else { crate::checks::lookup(&prop).unwrap_or_else(|| panic!("unknown property {}", prop)) };
     let start = std::time::Instant::now();
-    let mut idxs: Vec<usize> = (0..subjects.len()).filter(|i| only.map_or(true, |o| o == *i)).collect();
+    let mut idxs: Vec<usize> = (0..subjects.len()).filter(|i| only.map_or(true, |o| o == *i) && *i >= from && *i < to && !skip.contains(i)).collect();
     if prop == "C16" {
         idxs.retain(|i| seqs.iter().any(|e| e.subject_index == *i));
     }
